@@ -44,6 +44,12 @@ Definition elements (x : src) : list value :=
   | SrcCount lo hi => z_up lo (Z.to_nat (hi - lo))
   end.
 
+(* user-defined ITERABLES whose iter() is not the identity (prelude of IterLang):
+   Deck: iter() rewinds the cursor and returns self; Bag: iter() returns a separate cursor object;
+   VBag: iter() returns the built-in iterator of an inner vec; Chained: iter() returns inner.iter().filter(even).map(+k).
+   Whatever was traversed before, EVERY traversal (for, map, filter, collect, reduce, chains) sees this sequence: *)
+Inductive okind : Type := KDeck | KBag | KVBag | KChained.
+
 (* adapter chains, innermost first *)
 Inductive op : Type := OpMap (f : fn) | OpFilter (p : pr).
 
@@ -55,6 +61,12 @@ Definition apply_op (o : op) (l : list value) : list value :=
 
 Definition chain_spec (ops : list op) (l : list value) : list value :=
   fold_left (fun acc o => apply_op o acc) ops l.
+
+Definition obj_elems (k : okind) (items : list value) (z : Z) : list value :=
+  match k with
+  | KChained => List.map (apply_fn (AddK z)) (List.filter (apply_pr IsEven) (until_stop items))
+  | _ => until_stop items
+  end.
 
 Definition collect_spec (ops : list op) (x : src) : list value := chain_spec ops (elements x).
 Definition reduce_spec (g : rd) (init : value) (ops : list op) (x : src) : value :=
